@@ -83,8 +83,8 @@ fn strs(v: &Value) -> Vec<String> {
         .unwrap_or_default()
 }
 
-async fn cmd_sql(input: Value) {
-    let db = if input["engine"] == "disk" {
+async fn open_db(input: &Value) -> Database {
+    if input["engine"] == "disk" {
         let mut o = SecondaryStorageOptions::default_for_cli();
         o.path = input["dir"].as_str().unwrap().into();
         if let Some(v) = input["block"].as_u64() {
@@ -96,8 +96,26 @@ async fn cmd_sql(input: Value) {
         Database::new_on_disk(o).await
     } else {
         Database::new_in_memory()
-    };
+    }
+}
+
+async fn cmd_sql(input: Value) {
+    let mut db = open_db(&input).await;
     for stmt in strs(&input["stmts"]) {
+        // `--reopen`: clean shutdown, then open the same directory again (disk engine only)
+        if stmt.trim() == "--reopen" {
+            let r = db.shutdown().await;
+            drop(db);
+            db = open_db(&input).await;
+            println!("{}", json!({"sql": stmt, "ok": r.is_ok(), "rows": [], "types": [], "panicked": take_panicked()}));
+            continue;
+        }
+        // `--sleep <ms>`: let background work (the compactor's 1 s timer) run between two statements
+        if let Some(ms) = stmt.strip_prefix("--sleep ") {
+            tokio::time::sleep(std::time::Duration::from_millis(ms.trim().parse().unwrap_or(0))).await;
+            println!("{}", json!({"sql": stmt, "ok": true, "rows": [], "types": [], "panicked": take_panicked()}));
+            continue;
+        }
         let out = match db.run(&stmt).await {
             Ok(chunks) => {
                 let mut rows = vec![];
